@@ -64,6 +64,9 @@ pub struct Family {
     /// flushed partitions, then - with no query in between, so that nothing is resident - restart,
     /// a batch without one of the columns, a compacting flush; content is read only afterwards
     pub blind: bool,
+    /// the first request (for every table) is flushed, then the cache is evicted or the database
+    /// restarted, then read: the evict / reload path on every table
+    pub reload_shape: bool,
     /// three rounds of (request for every table, flush): with a factor that does not merge, every
     /// table ends with three partitions - the catalogue file of the last flush is the longest
     pub flush_cycles: bool,
@@ -92,7 +95,7 @@ fn long_name(compressible: bool) -> String {
 const MIXED_CASE: [&str; 8] = ["a0", "B1", "c2", "D3", "e4", "F5", "g6", "H7"];
 
 fn pool(odd: bool, compressible: bool) -> Vec<(String, u8)> {
-    let mut v = vec![("a".to_string(), 0u8), ("b".to_string(), 1), ("c".to_string(), 2), ("d".to_string(), 0)];
+    let mut v = vec![("a".to_string(), 0u8), ("b".to_string(), 1), ("c".to_string(), 2), ("d".to_string(), 0), ("u".to_string(), 3)];
     if odd {
         v.push(("A".to_string(), 0));
         v.push(("é".to_string(), 1));
@@ -126,6 +129,16 @@ fn cell(r: &mut Rng, kind: u8, hex: bool, compressible: bool, wide: bool, row_id
                 WORDS[r.below(WORDS.len() as u64) as usize].to_string()
             };
             l(vec![a("s"), Sx::bytes(s.as_bytes())])
+        }
+        3 => {
+            // a NULL-free non-negative column whose maximum lies in [2^31, 2^32): stored as u32 with no
+            // offset; the values must come back unsigned from every rebuild
+            let v = match r.below(4) {
+                0 => r.range(0, 50),
+                1 => 2_147_483_648 + r.range(0, 1000),
+                _ => 2_147_483_648 + r.range(70_000, 2_000_000_000),
+            };
+            l(vec![a("i"), Sx::int(v)])
         }
         _ => l(vec![a("f"), Sx::int(FLOATS[r.below(FLOATS.len() as u64) as usize].to_bits())]),
     }
@@ -163,7 +176,8 @@ impl<'f> HistGen<'f> {
             let mut v = vec![];
             for n in MIXED_CASE.iter() {
                 if r.chance(5, 6) {
-                    v.push((n.to_string(), if r.chance(1, 4) { 2u8 } else { 0u8 }));
+                    // small integers only: 3..5 bytes per column, so that a file holds 2..4 columns
+                    v.push((n.to_string(), 0u8));
                 }
             }
             return v;
@@ -216,7 +230,7 @@ impl<'f> HistGen<'f> {
                     if all_null || (self.fam.nulls && r.chance(1, 3)) {
                         a("n")
                     } else {
-                        cell(r, k, self.fam.hex, self.fam.compressible && !self.fam.odd_names, self.fam.wide_ints, start + i as i64)
+                        cell(r, k, self.fam.hex, self.fam.compressible && !self.fam.odd_names, self.fam.wide_ints && !self.fam.mixed_case, start + i as i64)
                     }
                 })
                 .collect();
@@ -249,7 +263,12 @@ pub fn gen_history(r: &mut Rng, fam: &Family) -> (String, Sx) {
         vec![all[i].to_string(), all[(i + 1) % all.len()].to_string(), all[(i + 3) % all.len()].to_string()]
     } else if fam.odd_tables {
         let gs = odd_table_groups();
-        gs[r.below(gs.len() as u64) as usize].clone()
+        // (the group with a plain lower-case name next to its mixed-case twins: every third time)
+        if r.chance(1, 3) {
+            gs[0].clone()
+        } else {
+            gs[r.below(gs.len() as u64) as usize].clone()
+        }
     } else {
         vec!["t1".into(), "t2".into(), "t3".into()]
     };
@@ -266,7 +285,7 @@ pub fn gen_history(r: &mut Rng, fam: &Family) -> (String, Sx) {
     let bg = max_files < 1000 || max_size < (64 << 20);
     // every fourth history with a tiny log: the limit is exactly the size of the first segment
     let exact_limit = fam.tiny_wal && r.chance(1, 4);
-    let max_part = if fam.mixed_case { *r.pick(&[8u64, 12, 20, 40]) } else { *r.pick(&[8u64 << 20, 8 << 20, 1, 40]) };
+    let max_part = if fam.mixed_case { *r.pick(&[10u64, 14, 20]) } else { *r.pick(&[8u64 << 20, 8 << 20, 1, 40]) };
     let io = if fam.odd_tables_compacting { 4 } else { *r.pick(&[1u64, 4]) };
     let ft = *r.pick(&[1u64, 4]);
     let opts = vec![
@@ -318,18 +337,18 @@ pub fn gen_history(r: &mut Rng, fam: &Family) -> (String, Sx) {
     let mut ingests = 0;
     for i in 0..n_ops {
         let k = r.below(100);
-        let op = if fam.mixed_case && i == 1 {
+        let op = if (fam.mixed_case || fam.reload_shape) && i == 1 {
             // the first request is flushed and then read back from the files
             g.flushed();
             l(vec![a("flush")])
-        } else if fam.mixed_case && i == 2 {
-            if r.chance(1, 2) {
+        } else if (fam.mixed_case || fam.reload_shape) && i == 2 {
+            if r.chance(1, 2) && fam.restarts {
                 restarts += 1;
                 l(vec![a("restart")])
             } else {
                 l(vec![a("evict")])
             }
-        } else if i == 0 && fam.odd_tables_compacting {
+        } else if i == 0 && (fam.odd_tables_compacting || fam.reload_shape) {
             // every table is created by the first request: _meta_tables then has one partition for
             // good and is never compacted (its name column compresses: F28), the others are
             ingests += 1;
